@@ -214,12 +214,14 @@ pub fn hash(r: &mut Rng, n: u64, x: &mut Exec, sink: &mut Sink, which: &str) {
             table = build_sysv(&names, nbucket, little, r);
             first = 1;
         }
-        let (symtab, strtab, _) = build_symtab(&names, class, little, r);
+        let (symtab, mut strtab, _) = build_symtab(&names, class, little, r);
+        let mut strtab_cut = false;
+        if r.chance(1, 8) && strtab.len() > 2 { let k = r.range(1, 2) as usize; strtab.truncate(strtab.len() - k); strtab_cut = true; }
         // unhashed (gnu) names before `first` are absent from the table's point of view unless repeated later
         if use_pair && !both_present { absent.push(pair.1.clone()); }
         for _ in 0..3 { absent.push(gen_name(r)); }
         absent.push(vec![]);
-        let mut wf = true;
+        let mut wf = !strtab_cut;
         let mut tb = table.clone();
         if r.chance(1, 3) {
             wf = false;
@@ -377,10 +379,11 @@ pub fn gen_ver_model(r: &mut Rng, big: bool) -> VerModel {
     let (mn, md, ma) = if big { (12, 12, 6) } else { (3, 3, 3) };
     let nn = r.below(mn + 1);
     let nd = r.below(md + 1);
-    let mut next_idx: u16 = 2;
+    // indices are usually small and consecutive; sometimes they start in a numerically interesting window
+    let mut next_idx: u16 = if r.chance(1, 4) { *r.pick(&[0xfeu16, 0xff, 0x100, 0x7ef0, 0x7f00, 0x7f01, 0x7ff0]) } else { 2 };
     let mut defs = Vec::new();
     for _ in 0..nd {
-        let ndx = if r.chance(1, 12) { 1 } else { let v = next_idx; next_idx += 1; v };
+        let ndx = if r.chance(1, 12) { 1 } else { let v = next_idx; next_idx = (next_idx + 1).min(0x7fff); v };
         let cnt = r.range(1, 3);
         defs.push(Def { ndx, flags: r.below(4) as u16, hash: r.next() as u32, names: (0..cnt).map(|_| ascii_name(r)).collect() });
     }
@@ -389,14 +392,15 @@ pub fn gen_ver_model(r: &mut Rng, big: bool) -> VerModel {
         let na = r.below(ma + 1);
         let mut auxs = Vec::new();
         for _ in 0..na {
-            let other = if r.chance(1, 15) && next_idx > 2 { next_idx - 1 } else { let v = next_idx; next_idx += 1; v };
+            let other = if r.chance(1, 15) && next_idx > 2 { next_idx - 1 } else { let v = next_idx; next_idx = (next_idx + 1).min(0x7fff); v };
             auxs.push(NeedAux { name: ascii_name(r), hash: r.next() as u32, flags: r.below(3) as u16, other });
         }
         needs.push(Need { file: ascii_name(r), auxs });
     }
     let nv = r.below(if big { 40 } else { 8 }) as usize;
     let versym = (0..nv).map(|_| {
-        let base = match r.below(5) { 0 => 0, 1 => 1, 2 => next_idx + r.below(3) as u16, _ => r.range(0, next_idx as u64) as u16 };
+        let lo = if next_idx > 0x200 { next_idx - 0x20 } else { 0 };
+        let base = match r.below(5) { 0 => 0, 1 => 1, 2 => (next_idx as u32 + r.below(3) as u32).min(0x7fff) as u16, _ => r.range(lo as u64, next_idx as u64) as u16 };
         if r.chance(1, 3) { base | 0x8000 } else { base }
     }).collect();
     VerModel { needs, defs, versym }
